@@ -110,3 +110,10 @@ func (c *Channel) VerifLocked(f func(channel.Source)) bool {
 	f(c.machine.StateMachine)
 	return true
 }
+
+// VerifEnableVer1Cache / VerifReleaseVer1Cache bracket a channel opening as
+// ProposeChannel and handleChannelProposalAcc do.
+func (c *Client) VerifEnableVer1Cache() { c.enableVer1Cache() }
+
+// VerifReleaseVer1Cache see VerifEnableVer1Cache.
+func (c *Client) VerifReleaseVer1Cache() { c.releaseVer1Cache() }
